@@ -260,6 +260,75 @@ def idle_scenario(args):
         srv.shutdown()
 
 
+def slow_answer_scenario(args):
+    """pynetdicom REQUESTS with connection_timeout = ct and network_timeout = None (unlimited inactivity allowed): the
+    peer sends its A-ASSOCIATE-AC and its C-ECHO response in two pieces each, `gap` seconds apart (cut inside the 6-byte
+    header or inside the body).  The timeout for making the connection must play no part once connected."""
+    import socket
+    import threading
+    import time
+
+    from harness import e2e
+    from harness.lockstep import wire_bytes
+    from pynetdicom import AE
+    from pynetdicom.sop_class import Verification
+
+    ct, gap, cut = args
+    e2e.quiet()
+    lst = socket.socket()
+    lst.bind(("127.0.0.1", 0))
+    lst.listen(1)
+
+    def peer():
+        c, _ = lst.accept()
+        c.settimeout(10)
+        try:
+            c.recv(4096)
+            ac = wire_bytes(3, False)
+            c.sendall(ac[:cut])
+            time.sleep(gap)
+            c.sendall(ac[cut:])
+            rq = c.recv(4096)  # C-ECHO-RQ
+            if rq[:1] == b"\x04":
+                from pynetdicom.dimse_messages import C_ECHO_RSP
+                from pynetdicom.dimse_primitives import C_ECHO
+                from pynetdicom.pdu import P_DATA_TF
+
+                r = C_ECHO()
+                r.MessageIDBeingRespondedTo, r.AffectedSOPClassUID, r.Status = 1, "1.2.840.10008.1.1", 0
+                m = C_ECHO_RSP()
+                m.primitive_to_message(r)
+                data = P_DATA_TF(next(iter(m.encode_msg(1, 16382)))).encode()
+                c.sendall(data[:cut])
+                time.sleep(gap)
+                c.sendall(data[cut:])
+                c.recv(4096)
+        except OSError:
+            pass
+        finally:
+            c.close()
+
+    th = threading.Thread(target=peer, daemon=True)
+    th.start()
+    ae = AE()
+    ae.add_requested_context(Verification)
+    ae.connection_timeout = ct
+    ae.network_timeout = None
+    ae.acse_timeout = ae.dimse_timeout = 30
+    out = {}
+    try:
+        a = ae.associate("127.0.0.1", lst.getsockname()[1])
+        out["established"] = a.is_established
+        if a.is_established:
+            st = a.send_c_echo()
+            out["echo"] = getattr(st, "Status", None) if st else None
+            out["still_established"] = a.is_established
+            a.abort()
+        return out
+    finally:
+        lst.close()
+
+
 def idle_check(ctx):
     import multiprocessing as mp
 
@@ -290,6 +359,22 @@ def idle_check(ctx):
     finally:
         pool.terminate()
         pool.join()
+    # requestor side: the connection timeout must not survive the connection
+    lf = e2e.load_factor()
+    sjobs = [(0.3 * lf, 0.9 * lf, cut) for cut in (3, 40)]
+    pool = mp.get_context("fork").Pool(processes=2, maxtasksperchild=1)
+    try:
+        sres = pool.map(slow_answer_scenario, sjobs)
+    finally:
+        pool.terminate()
+        pool.join()
+    for job, r in zip(sjobs, sres):
+        case = ["slow-answer", list(job)]
+        ctx.case(case, nontrivial=True, kind="slow-answer:requestor")
+        if not r.get("established") or r.get("echo") != 0 or not r.get("still_established"):
+            ctx.fail("framing:requestor-read-keeps-connection-timeout",
+                     f"requestor with connection_timeout {job[0]:.1f} s and network_timeout None; the peer's answers arrive in two pieces "
+                     f"{job[1]:.1f} s apart (cut at byte {job[2]}): {r}", case)
     policy = "perChunk" if tr_timeouts.extract_idle() else "perPdu"
     model = ctx.lean([["idle.aborted", policy, 10, [[g, l] for g, l in p]] for p in plans])
     for plan, r, m in zip(plans, results, model):
@@ -359,6 +444,10 @@ def run(ctx):
 
 def replay(ctx, case):
     c = case["case"]
+    if c[0] == "slow-answer":
+        r = slow_answer_scenario(tuple(c[1]))
+        print(r)
+        return 0 if r.get("established") and r.get("echo") == 0 else 1
     if c[0] == "idle":
         r = idle_scenario((1.0, c[1]))
         print(r)
